@@ -37,7 +37,7 @@ def run(ctx: Ctx, which=WHICH, props=PROPS, assume=None) -> int:
     shards, findings, infos, samples = {}, [], {}, []
     distinct = set()
     plays = dispatched = 0
-    for si, (job, variant) in enumerate(ec.job_schedule(ctx, 40 if ctx.thorough else 10)):
+    for si, (job, variant) in enumerate(ec.job_schedule(ctx, 80 if ctx.thorough else 24)):
         if not budget.ok():
             break
         lines, steps = gen_steps(ctx, job, variant)
